@@ -93,6 +93,19 @@ CHECKS = {
         design_ref="DESIGN.md section 4, C19",
         note=TB_B + " Reading for stop(): a send whose partition lookup had already failed terminally before stop() reports that routing error rather than a cancellation.",
     ),
+    "C05": dict(
+        category="other", engine="chplug",
+        technique="symbolic execution of the real decoders with CrossHair/z3 (linear struct model): reference-encoded responses and message sets with all integer fields and content bytes symbolic; 'Confirmed over all paths' per shape",
+        text="Bounded SMT verification of the real afkak decoders. For each of the response decoders and for the message-set codec a family of "
+             "shapes (0..2/3 topics, partitions, members, brokers, replicas, messages; null/empty/short keys, values, metadata) is enumerated; "
+             "within a shape every integer field ranges over its full wire width and every content byte is symbolic. An independent reference "
+             "encoder builds the bytes, the real decoder runs on them under CrossHair, and the decoded values must equal the inputs on every "
+             "path ('Confirmed over all paths', reachability twin refuted). Direction 2 checks decode(encode(ms)) == ms incl. Message.__eq__, and "
+             "the absolute-offset rule for inner messages of compressed wrappers of both message formats to depth 2. This is not a proof: each "
+             "claim carries the size bound stated in the evidence.",
+        design_ref="DESIGN.md section 4, C05",
+        note="Trusted base: CrossHair 0.0.110, z3 5.1, the plugin's struct model (fresh bytes + one linear equality per integer), the abstract checksum and gzip stubs (real zlib/gzip in every replay), the reference codec vlib/ref/kafka_ref.py. Snappy is absent from the image and outside the claim.",
+    ),
 }
 
 NOT_YET = "check not built yet in this session; see DESIGN.md section 4 for the planned solver-based harness"
